@@ -24,6 +24,9 @@ def run(ctx):
     ctx.run_rule("R1p", r_round.rule_R1_portable, ["asm-full", "portable1"])
     ctx.run_rule("R1s", r_round.rule_R1_rust_simd, ["pure-full"] + (["intr-full"] if ctx.tier == "thorough" else []))
     ctx.run_rule("R1r", r_round.rule_R1_refimpl, ["refimpl"])
+    import r_asm
+    ctx.run_rule("A9", r_asm.rule_A9)
+    ctx.run_rule("K1asm", r_asm.rule_K1asm)
     for name in ("rule_R1_c",):
         if hasattr(r_round, name):
             ctx.run_rule("R1c", getattr(r_round, name))
